@@ -77,6 +77,18 @@ def check_substitution(sk, lang, tier, found, stats):
             s = stack.pop()
             seen += 1
             st = cv.term(s)
+            # the constructor a supertype object carries must be the class as THIS table declares it (names and
+            # declaration-site variances of its parameters): a constructor left over from an earlier table or program
+            # with the same class names (state shared between instantiations) shows here
+            tc_ = getattr(s, 't_constructor', None)
+            dd_ = conv.impl.get(getattr(s, 'name', None)) if tc_ is not None else None
+            if dd_ is not None:
+                stats['constructor_identity_checks'] = stats.get('constructor_identity_checks', 0) + 1
+                sig_a = [(p_.name, p_.variance.value) for p_ in tc_.type_parameters]
+                sig_b = [(p_.name, p_.variance.value) for p_ in dd_.type_parameters]
+                if sig_a != sig_b:
+                    rec(found, 'supertype-carries-a-stale-constructor', 'supertypes of %s' % rsub.abstract(t), sk, lang, t,
+                        'at %s: constructor parameters %s, the table declares %s' % (rsub.show(st), sig_a, sig_b))
             if st[0] == 'c' and st[2]:
                 sinfo = tb.cls[st[1]]
                 sm = {p[0]: a for p, a in zip(sinfo.params, st[2])}
